@@ -1002,7 +1002,7 @@ class Walker:
                         continue
                     ea = _xa(a_, self.frame[0], s.defs) if s.defs else a_
                     free = _names_of(ea) - {"self"}
-                    if not (free & callee_locals) and (is_self or "self" not in _names_of(ea)):
+                    if not (free & callee_locals) and (is_self or callee.cls is None or "self" not in _names_of(ea)):
                         pdefs[p_] = ea
             except Exception:
                 pdefs = {}
@@ -1947,7 +1947,7 @@ class Walker:
                         continue
                     ea = _xa(a_, self.frame[0], s.defs) if s.defs else a_
                     free = _names_of(ea) - {"self"}
-                    if not (free & callee_locals) and (is_self or "self" not in _names_of(ea)):
+                    if not (free & callee_locals) and (is_self or callee.cls is None or "self" not in _names_of(ea)):
                         pdefs[p_] = ea
             except Exception:
                 pdefs = {}
